@@ -27,7 +27,10 @@ fn gen_set(rng: &mut Rng, keys: &KeyPool, sorted: &[u8]) -> MSet {
         let i = rng.usize(chosen.len());
         chosen.remove(i);
     }
-    let regime = rng.weighted(&[5, 3, 2, 2]);
+    let regime = rng.weighted(&[5, 3, 2, 2, 2]);
+    // width boundaries inside u128: weights that are small multiples of 2^32 / 2^64 / 2^96, so that any
+    // narrowing of a weight, a sum or the threshold to a machine word loses everything
+    let unit: u128 = 1u128 << *rng.pick(&[32u32, 64, 64, 96]);
     let mut signers = vec![];
     for (i, k) in chosen.iter().enumerate() {
         let weight: u128 = match regime {
@@ -37,13 +40,14 @@ fn gen_set(rng: &mut Rng, keys: &KeyPool, sorted: &[u8]) -> MSet {
                 // near u128::MAX, total still representable
                 (u128::MAX / n as u128) - rng.below(3) as u128
             }
-            _ => {
+            3 => {
                 if i == 0 {
                     1_000_000
                 } else {
                     1
                 }
             }
+            _ => unit * rng.range(1, 3) as u128 + if rng.chance(1, 4) { 1 } else { 0 },
         };
         signers.push(MSigner {
             key: keys.pubs[*k as usize],
@@ -489,7 +493,8 @@ impl World for WorldG {
                     let mut msg = if !known.is_empty() && rng.chance(4, 5) { rng.pick(&known).clone() } else { gen_msg(rng, ndest, npay) };
                     let mut caller = msg.dest;
                     if fault {
-                        match rng.below(5) {
+                        match rng.below(6) {
+                            5 => msg.payload = 250,
                             0 => msg.src = (msg.src + 1) % SRCS.len() as u8,
                             1 => msg.payload = (msg.payload + 1) % npay,
                             2 => msg.id = (msg.id + 1) % IDS.len() as u8,
@@ -518,7 +523,8 @@ impl World for WorldG {
                         app += 2; // a misconfigured twin
                     }
                     if fault {
-                        match rng.below(5) {
+                        match rng.below(6) {
+                            5 => msg.payload = 250,
                             0 => msg.src = (msg.src + 1) % SRCS.len() as u8,
                             1 => msg.payload = (msg.payload + 1) % npay,
                             2 => msg.id = (msg.id + 1) % IDS.len() as u8,
